@@ -9,6 +9,19 @@ class SignallingCondition(threading.Condition):
         self.waiting = threading.Event()
         self.waits = 0
 
+    def reentered(self, n, timeout=1.0):
+        """True once wait() has been entered more than ``n`` times (the waiter
+        processed a wake-up and parked again)."""
+        import time
+        end = time.time() + timeout
+        while time.time() < end:
+            if self.waits > n and self.waiting.is_set():
+                with self:
+                    pass
+                return True
+            time.sleep(0.0005)
+        return False
+
     def wait(self, timeout=None):
         self.waits += 1
         self.waiting.set()
